@@ -59,11 +59,20 @@ def cache_put(key, val):
 # --------------------------------------------------------------------------------------------- verus
 def verus_pass(vacuity, seed_args=None, tag="", extracted=None):
     """one assemble + verus run; returns a JSON-able summary"""
-    A = vxlib.assemble(vacuity=vacuity, extracted=extracted)
-    name = ("vacuity" if vacuity else "opaque_verif") + tag + ".rs"
-    path = vxlib.write_file(A, name)
-    res = vxlib.run_verus(path, extra=seed_args)
-    fc, ff, tf, hard, rl = vxlib.classify(A, res)
+    force = {}
+    for _round in range(4):
+        A = vxlib.assemble(vacuity=vacuity, extracted=extracted, force_external=force)
+        name = ("vacuity" if vacuity else "opaque_verif") + tag + ".rs"
+        path = vxlib.write_file(A, name)
+        res = vxlib.run_verus(path, extra=seed_args)
+        fc, ff, tf, hard, rl = vxlib.classify(A, res)
+        # type errors / unsupported constructs confined to extracted function bodies: drop those bodies (contract assumed,
+        # function reported as refused) and try again, so that one foreign construct does not make every property undecided
+        new = {k: v for k, v in A.hard_fns.items() if k not in force}
+        if hard and new and len(A.hard_fns) >= 1:
+            force.update(new)
+            continue
+        break
     times = vxlib.fn_times(res)
     pre_cnt, outside = vxlib.scan_assumptions(A)
     vr = (res["json"] or {}).get("verification-results", {})
@@ -74,7 +83,7 @@ def verus_pass(vacuity, seed_args=None, tag="", extracted=None):
         "failed_fns": {k: v[:3] for k, v in ff.items()},
         "failed_theorems": {k: v[:2] for k, v in tf.items()},
         "hard": hard[:10], "rlimit": rl[:10],
-        "contracted": A.contracted, "uncontracted": A.uncontracted, "external": A.external,
+        "contracted": A.contracted, "uncontracted": A.uncontracted, "external": A.external, "refused": A.refused,
         "clauses": {f"{k[0]}|{k[1]}": v for k, v in A.clauses.items()},
         "clause_lines": sorted(set(f"{v[0]}|{v[1]}" for v in A.clause_at.values())),
         "fn_times": times, "prelude_assumptions": pre_cnt, "assumptions_outside_prelude": outside,
@@ -112,7 +121,7 @@ def verus_results(tier):
         # re-run with two other SMT seeds: an obligation that flips is unstable (=> undecided), not a violation
         extra = []
         for sd in (7, 101):
-            extra.append(verus_pass(False, seed_args=["-V", f"smt-option=smt.random_seed={sd}", "-V", f"smt-option=sat.random_seed={sd}"], tag=f".seed{sd}", extracted=extracted))
+            extra.append(verus_pass(False, seed_args=["--smt-option", f"smt.random_seed={sd}", "--smt-option", f"sat.random_seed={sd}"], tag=f"_seed{sd}", extracted=extracted))
         out["seeds"] = extra
     cache_put(key, out)
     return out
@@ -248,6 +257,43 @@ def expand_refs(vr, refs, exclude=()):
     return out
 
 
+def property_generators(P):
+    gens = []
+    for a in P["alternatives"]:
+        gens += a.get("replay", [])
+    if P.get("witness"):
+        gens.append(P["witness"])
+    return list(dict.fromkeys(gens))
+
+
+def search_witness(P):
+    """run the property's generators on the REAL code (concrete execution); returns (witness or None, log)"""
+    wit_log = []
+    for g in property_generators(P):
+        r = run_replay(["witness", g])
+        wit_log.append({k: v for k, v in r.items() if k != "witness"} if isinstance(r, dict) else r)
+        if isinstance(r, dict) and r.get("found"):
+            return r, g, wit_log
+    return None, None, wit_log
+
+
+def fallback_undecided(pid, tier, seed, P, reason, t0):
+    """the deductive route cannot decide (extraction refusal, lost anchor, type error, rlimit ...).  Never an alarm by itself:
+    the property's generators are run on the real code; only a CONCRETE failing input is reported as a violation."""
+    wit, gen, wit_log = search_witness(P)
+    if wit:
+        path = write_replay_doc(pid, tier, [{"alternative": "-", "kind": "replay", "obligation": f"replay::{gen}", "clause_text": "", "verifier_output":
+                                            "deductive route undecided (" + reason[:500] + "); violation found by concrete execution of the real code"}], wit, gen, wit_log, None)
+        write_undecided(pid, tier, seed, reason + " ; violation found by concrete execution: " + json.dumps(wit.get("witness"))[:800], t0, violations=1)
+        log(f"  deductive route undecided: {reason[:300]}")
+        log(f"  concrete failing input found by replay generator {gen}")
+        log(f"VIOLATION property={pid} replay={path}")
+        return 1
+    log(f"UNDECIDED property={pid} reason={reason[:1800]} ; no failing input found by {property_generators(P)} on the real code")
+    write_undecided(pid, tier, seed, reason, t0)
+    return 2
+
+
 def check_property(pid, tier, seed):
     t0 = time.time()
     P = vxprops.PROPS[pid]
@@ -257,16 +303,14 @@ def check_property(pid, tier, seed):
     try:
         vr = verus_results(tier)
     except vxlib.Undecided as e:
-        log(f"UNDECIDED property={pid} reason={str(e)[:1500]}")
-        write_undecided(pid, tier, seed, str(e), t0)
-        return 2
+        return fallback_undecided(pid, tier, seed, P, str(e), t0)
     main, vac = vr["main"], vr["vacuity"]
-    # ---- hard problems: never an alarm
+    # ---- global problems: never an alarm by themselves
     problems = []
     if main["no_output"]:
         problems.append("verus produced no result: " + main["stderr_tail"])
     if main["hard"]:
-        problems.append("generated text does not type-check / unsupported construct: " + main["hard"][0][:1200])
+        problems.append("generated text does not type-check / unsupported construct (outside function bodies): " + main["hard"][0][:1200])
     if main["lost_anchors"]:
         problems.append("lost anchors: " + ", ".join(main["lost_anchors"]))
     if main["assumptions_outside_prelude"]:
@@ -274,26 +318,28 @@ def check_property(pid, tier, seed):
     if main["unsafe_seen"]:
         problems.append("unsafe code in extracted functions")
     if problems:
-        log(f"UNDECIDED property={pid} reason=" + " ; ".join(problems))
-        write_undecided(pid, tier, seed, " ; ".join(problems), t0)
-        return 2
+        return fallback_undecided(pid, tier, seed, P, " ; ".join(problems), t0)
 
     alt_reports = []
-    holds = False
     unstable = []
     for alt in P["alternatives"]:
-        refs = expand_refs(vr, alt.get("clauses", []), alt.get("exclude", ()))
+        nec_refs = expand_refs(vr, alt.get("clauses", []), alt.get("exclude", ()))
+        sup_refs = set(expand_refs(vr, alt.get("supporting", []), alt.get("exclude", ()))) - set(nec_refs)
+        refs = nec_refs + sorted(sup_refs)
         needed_fns = sorted(set(r.split("|")[0] for r in refs))
-        failed = []
+        failed = []        # necessary obligations that failed verification: the violation
+        supporting = []    # value / completeness clauses the proof goes through: their failure needs confirmation on the real code
         undecided = []
         for r in refs:
-            if r.endswith("|<missing>"):
-                undecided.append(f"function {r.split('|')[0]} is not under contract")
+            fn, lab = r.split("|", 1)
+            if lab == "<missing>":
+                undecided.append(f"function {fn} is not under contract")
+            elif fn in main["refused"]:
+                undecided.append(f"function {fn} could not be verified ({'; '.join(main['refused'][fn])[:200]}): clause {lab} undecided")
             elif r not in main["clauses"]:
                 undecided.append(f"LOST-ANCHOR: clause {r} not found in contracts/")
             elif r in main["failed_clauses"]:
-                failed.append(("clause", r, main["failed_clauses"][r][0]))
-        # trait-level clauses failing on one of the needed functions
+                (supporting if r in sup_refs else failed).append(("clause", r, main["failed_clauses"][r][0]))
         for k, v in main["failed_clauses"].items():
             fn, lab = k.split("|", 1)
             if lab.startswith("trait:") and fn in needed_fns:
@@ -303,32 +349,33 @@ def check_property(pid, tier, seed):
                 undecided.append(f"LOST-ANCHOR: theorem {th} missing from verus/theorems.rs")
             elif th in main["failed_theorems"]:
                 failed.append(("theorem", th, main["failed_theorems"][th][0]))
-        # panic-freedom obligations (body-level) count only where the alternative says so
         if alt.get("body_of"):
             sel = alt["body_of"]
             for fn, msgs in main["failed_fns"].items():
                 if sel == "*" or fn in sel:
                     failed.append(("body", fn, msgs[0]))
-        # rlimit: undecided
+            for fn in main["refused"]:
+                if sel == "*" or fn in sel:
+                    undecided.append(f"function {fn} could not be verified ({'; '.join(main['refused'][fn])[:200]}): panic-freedom undecided")
         for rl in main["rlimit"]:
             undecided.append("rlimit: " + rl[:300])
-        # vacuity of everything this alternative relies on
         for fn in needed_fns:
-            if fn in main["contracted"] and f"{fn}|__vacuity" in vac["clause_lines"] and f"{fn}|__vacuity" not in vac["failed_clauses"]:
+            if fn in main["contracted"] and f"{fn}|__vacuity" in vac["clause_lines"] and f"{fn}|__vacuity" not in vac["failed_clauses"] and fn not in vac.get("refused", {}):
                 undecided.append(f"VACUOUS: `ensures false` verified for the twin of {fn} (contradictory contract or prelude)")
         for th in alt.get("theorems", []):
             if th in vxprops.VACUITY_THEOREMS and (th + "__vac") not in vac["theorem_names"]:
                 undecided.append(f"LOST-ANCHOR: theorem {th} has no //@vacuity marker")
-            elif th in vxprops.VACUITY_THEOREMS and (th + "__vac") not in vac["failed_theorems"]:
+            elif th in vxprops.VACUITY_THEOREMS and (th + "__vac") not in vac["failed_theorems"] and not vac["hard"]:
                 undecided.append(f"VACUOUS: theorem {th} proves false (unsatisfiable hypotheses)")
-        # seeds (thorough): anything that passes in one seed and fails in another is unstable
         for srun in vr.get("seeds", []):
-            a = set(srun["failed_clauses"]) | set(srun["failed_theorems"])
-            b = set(main["failed_clauses"]) | set(main["failed_theorems"])
-            for x in (a ^ b):
-                if x.split("|")[0] in needed_fns or x in alt.get("theorems", []):
-                    unstable.append(x)
-        # kani
+            if srun["no_output"] or srun["hard"]:
+                undecided.append("re-run under another SMT seed produced no result: " + (srun["stderr_tail"] or str(srun["hard"][:1]))[:300])
+                continue
+            x = set(srun["failed_clauses"]) | set(srun["failed_theorems"])
+            y = set(main["failed_clauses"]) | set(main["failed_theorems"])
+            for d in (x ^ y):
+                if d.split("|")[0] in needed_fns or d in alt.get("theorems", []):
+                    unstable.append(d)
         kani_items = list(alt.get("kani", {}).get("quick", []))
         if tier == "thorough":
             kani_items += alt.get("kani", {}).get("thorough", [])
@@ -338,27 +385,26 @@ def check_property(pid, tier, seed):
                 failed.append(("kani", f"{kr['crate']}::{kr['harness']}", "; ".join(kr["failed_checks"]) or kr["tail"][-600:]))
             elif kr["status"] != "success":
                 undecided.append(f"kani {kr['crate']}::{kr['harness']} did not complete: " + kr["tail"][-400:])
-        # concrete exploration on the real code (testing, never counted as proof): thorough tier
         rres = []
         if tier == "thorough":
             for g in alt.get("replay", []):
                 rr = run_replay(["witness", g])
-                rres.append(rr)
+                rres.append({k: v for k, v in rr.items() if k != "witness"} if isinstance(rr, dict) else rr)
                 if rr.get("found"):
                     failed.append(("replay", f"replay::{g}", json.dumps(rr.get("witness"))[:1500]))
                 elif rr.get("error"):
                     undecided.append(f"replay {g}: {rr['error'][:300]}")
-        alt_reports.append({"name": alt["name"], "replay": rres, "refs": refs, "theorems": alt.get("theorems", []), "failed": failed, "undecided": undecided, "kani": kres, "fns": needed_fns})
-        if not failed and not undecided:
-            holds = True
+        alt_reports.append({"name": alt["name"], "replay": rres, "refs": refs, "theorems": alt.get("theorems", []), "failed": failed, "supporting_failed": supporting,
+                            "undecided": undecided, "kani": kres, "fns": needed_fns})
 
     # ---- verdict
-    known_lines = []
-    violations = []
+    holds = any(not a["failed"] and not a["supporting_failed"] and not a["undecided"] for a in alt_reports) and not unstable
+    known_lines, violations = [], []
+    witness, gen, wit_log = None, None, None
+    rc = 0
     if not holds:
-        # every alternative has a failure or is undecided; a violation needs every alternative to have a *failed* obligation
         if all(a["failed"] for a in alt_reports) and not unstable:
-            # which failures are not covered by known findings?
+            # every alternative has a NECESSARY obligation that passed on the unchanged tree and now fails verification
             for a in alt_reports:
                 for kind, ob, msg in a["failed"]:
                     kf = known_match(pid, ob)
@@ -367,64 +413,62 @@ def check_property(pid, tier, seed):
                     else:
                         violations.append((a["name"], kind, ob, msg))
             if not violations:
-                holds = True  # all failures are listed known findings
-    rc = 0
+                holds = True
+            else:
+                rc = 1
+                witness, gen, wit_log = search_witness(P)
+        else:
+            # only supporting clauses failed / something is undecided: the proof no longer goes through, which is NOT yet a
+            # violation (the contracts state more than this property).  Decide on the real code: a concrete failing input is a
+            # violation; none found => undecided (exit 2), never an alarm.
+            witness, gen, wit_log = search_witness(P)
+            if witness:
+                rc = 1
+                for a in alt_reports:
+                    for kind, ob, msg in (a["failed"] + a["supporting_failed"]):
+                        violations.append((a["name"], kind, ob, msg))
+                if not violations:
+                    violations.append(("-", "replay", f"replay::{gen}", "violation found by concrete execution of the real code; deductive route undecided: "
+                                       + " ; ".join(u for a in alt_reports for u in a["undecided"])[:800]))
+            else:
+                rc = 2
     replay_path = None
     if holds:
         for ob, kf in known_lines:
             log(f"KNOWN-FINDING: property={pid} {kf.get('what', ob)}")
-    elif violations:
-        rc = 1
-        replay_path = write_replay(pid, tier, violations, alt_reports, vr)
-    else:
-        rc = 2
-    write_evidence(pid, tier, seed, P, vr, alt_reports, holds, violations, known_lines, unstable, t0, evid_path)
     if rc == 1:
-        wit = json.load(open(replay_path)).get("witness")
-        suffix = "" if wit else " no-failing-input-found"
+        docs = [{"alternative": v[0], "kind": v[1], "obligation": v[2], "clause_text": main["clauses"].get(v[2], ""), "verifier_output": v[3]} for v in violations]
+        replay_path = write_replay_doc(pid, tier, docs, witness, gen, wit_log, main["path"])
+    write_evidence(pid, tier, seed, P, vr, alt_reports, holds, violations, known_lines, unstable, t0, evid_path, rc)
+    if rc == 1:
+        suffix = "" if witness else " no-failing-input-found"
         for v in violations[:6]:
             log(f"  failed obligation [{v[1]}] {v[2]}")
+        if witness:
+            log(f"  concrete failing input found on the real code by replay generator {gen}")
         log(f"VIOLATION property={pid} replay={replay_path}{suffix}")
     elif rc == 2:
-        reasons = [u for a in alt_reports for u in a["undecided"]] + [f"unstable: {u}" for u in unstable]
-        log(f"UNDECIDED property={pid} reason=" + " ; ".join(reasons)[:2000])
+        reasons = [f"supporting clause failed: {f[1]}" for a in alt_reports for f in a["supporting_failed"]] + [u for a in alt_reports for u in a["undecided"]] + [f"unstable: {u}" for u in unstable]
+        log(f"UNDECIDED property={pid} reason=" + " ; ".join(dict.fromkeys(reasons))[:2000] + f" ; no failing input found by {property_generators(P)} on the real code")
     else:
-        n_ob = sum(len(a["refs"]) + len(a["theorems"]) + len(a["kani"]) for a in alt_reports if not a["failed"] and not a["undecided"])
+        n_ob = sum(len(a["refs"]) + len(a["theorems"]) + len(a["kani"]) for a in alt_reports if not a["failed"] and not a["undecided"] and not a["supporting_failed"])
         log(f"OK property={pid} tier={tier} obligations={n_ob} verus_wall={main['wall']:.1f}s cache_hit={vr.get('cache_hit')} total={time.time()-t0:.1f}s")
     return rc
 
 
 # --------------------------------------------------------------------------------------------- witness / replay files
-def write_replay(pid, tier, violations, alt_reports, vr):
+def write_replay_doc(pid, tier, failed_docs, witness, gen, wit_log, generated_file):
     n = len(glob.glob(os.path.join(REPLAYS, pid + "-*.json")))
     path = os.path.join(REPLAYS, f"{pid}-{n:03d}.json")
-    P = vxprops.PROPS[pid]
-    witness = None
-    wit_log = None
-    gens = []
-    for a in P["alternatives"]:
-        gens += a.get("replay", [])
-    if P.get("witness"):
-        gens.append(P["witness"])
-    gen = None
-    wit_log = []
-    for g in dict.fromkeys(gens):
-        r = run_replay(["witness", g])
-        wit_log.append(r)
-        if isinstance(r, dict) and r.get("found"):
-            witness, gen = r, g
-            break
-    if gen is None and gens:
-        gen = gens[0]
     doc = {
         "property": pid, "tier": tier,
-        "failed_obligations": [{"alternative": v[0], "kind": v[1], "obligation": v[2], "clause_text": vr["main"]["clauses"].get(v[2], ""), "verifier_output": v[3]} for v in violations],
+        "failed_obligations": failed_docs,
         "witness": witness, "witness_search": wit_log if witness is None else None,
-        "witness_generator": gen,
+        "witness_generator": gen or (property_generators(vxprops.PROPS[pid]) or [None])[0],
         "replay_cmd": f"bin/check replay {path}",
-        "note": "Verus gives no counterexample; the witness (if any) was found by running the registered generator on the real code" if witness else
-                "no-failing-input-found: the obligation above passed on the unchanged tree and now fails; verifier output attached",
-        "generated_file": vr["main"]["path"],
+        "note": "Verus gives no counterexample; the witness was found by running the registered generator on the real code (concrete execution)" if witness else
+                "no-failing-input-found: the obligation above passed on the unchanged tree and now fails verification; verifier output attached",
+        "generated_file": generated_file,
     }
     json.dump(doc, open(path, "w"), indent=1)
     return path
@@ -453,21 +497,21 @@ def replay(path):
 
 
 # --------------------------------------------------------------------------------------------- evidence
-def write_undecided(pid, tier, seed, reason, t0):
+def write_undecided(pid, tier, seed, reason, t0, violations=0):
     ev = {
         "property_id": pid, "tier": tier, "seed": seed, "level": "proof",
         "coverage": {"obligations": 0, "discharged": 0, "checker_cmd": "verus (not reached)", "trusted_base": [], "evaluations": 1, "distinct_nontrivial": 0,
                      "explanation": "UNDECIDED: " + reason[:3000], "samples": [reason[:500]]},
-        "assumptions": [], "wall_s": time.time() - t0, "violations": 0,
+        "assumptions": [], "wall_s": time.time() - t0, "violations": violations,
     }
     json.dump(ev, open(os.path.join(EVID, pid + ".json"), "w"), indent=1)
 
 
-def write_evidence(pid, tier, seed, P, vr, alt_reports, holds, violations, known_lines, unstable, t0, path):
+def write_evidence(pid, tier, seed, P, vr, alt_reports, holds, violations, known_lines, unstable, t0, path, rc=0):
     main, vac = vr["main"], vr["vacuity"]
     best = None
     for a in alt_reports:
-        if not a["failed"] and not a["undecided"]:
+        if not a["failed"] and not a["undecided"] and not a["supporting_failed"]:
             best = a
             break
     rep = best or alt_reports[0]
@@ -480,7 +524,7 @@ def write_evidence(pid, tier, seed, P, vr, alt_reports, holds, violations, known
             if k.endswith("::" + "::".join(fn.split("::")[1:])) or k.endswith(fn.split("::")[-1]):
                 if fn.split("::")[-1] in k and (len(fn.split("::")) < 3 or fn.split("::")[-2] in k):
                     tm = v
-        obligations.append({"obligation": r, "backend": "Verus 0.2026.09.13 + Z3", "verdict": "failed" if r in main["failed_clauses"] else "discharged",
+        obligations.append({"obligation": r, "backend": "Verus 0.2026.09.13 + Z3", "verdict": "failed" if r in main["failed_clauses"] else ("undecided" if fn in main.get("refused", {}) else "discharged"),
                             "text": main["clauses"].get(r, ""), "fn_smt_ms": (tm or {}).get("ms"), "fn_rlimit": (tm or {}).get("rlimit")})
     for th in rep["theorems"]:
         tm = None
@@ -511,7 +555,10 @@ def write_evidence(pid, tier, seed, P, vr, alt_reports, holds, violations, known
             "checker_cmd": main["cmd"] + "   (vacuity twin: " + vac["cmd"] + ")",
             "trusted_base": trusted,
             "samples": samples or [{"note": "no obligations"}],
-            "alternatives": [{"name": a["name"], "obligations": len(a["refs"]) + len(a["theorems"]) + len(a["kani"]), "failed": [f[1] for f in a["failed"]], "undecided": a["undecided"]} for a in alt_reports],
+            "alternatives": [{"name": a["name"], "obligations": len(a["refs"]) + len(a["theorems"]) + len(a["kani"]), "failed": [f[1] for f in a["failed"]],
+                              "supporting_failed": [f[1] for f in a["supporting_failed"]], "undecided": a["undecided"], "replay": a.get("replay")} for a in alt_reports],
+            "verdict": {0: "holds", 1: "violation", 2: "undecided"}[rc],
+            "functions_refused": main.get("refused", {}),
             "deciding_alternative": rep["name"],
             "functions_under_contract": rep["fns"],
             "functions_under_contract_total": len(main["contracted"]), "functions_without_contract": main["uncontracted"], "functions_assumed_external": main["external"],
